@@ -281,13 +281,20 @@ def execute(prop, tier, seed):
     # ---- run jobs (dynamic queue: shards of split jobs are re-submitted)
     nproc = int(os.environ.get("VERIF_JOBS", "0")) or min(16, os.cpu_count() or 4)
     results = []
+    abandoned = False
     if tasks:
         ctx = mp.get_context("fork")
         with ctx.Pool(processes=nproc, maxtasksperchild=int(os.environ.get("VERIF_MAXTASKS", "40"))) as pool:
             pending = [pool.apply_async(work, (t,)) for t in tasks]
             by_name = {t["name"]: t for t in tasks}
             shard_no = {}
+            first_violation_at = None
             while pending:
+                if first_violation_at is not None and time.time() - first_violation_at > float(os.environ.get("VERIF_FAILFAST_GRACE", "20")):
+                    # a counterexample is in hand: do not wait for the long tail (abandoned jobs are not counted as explored)
+                    log(f"fail-fast: abandoning {len(pending)} unfinished job(s) after a violation was found")
+                    abandoned = True
+                    break
                 nxt = []
                 for ar in pending:
                     if not ar.ready():
@@ -295,6 +302,8 @@ def execute(prop, tier, seed):
                         continue
                     r = ar.get()
                     results.append(r)
+                    if r.get("violations") and first_violation_at is None:
+                        first_violation_at = time.time()
                     if r.get("status") == "split":
                         base = by_name[r["job"]]
                         traces = r["pending"]
@@ -346,7 +355,7 @@ def execute(prop, tier, seed):
         if a["status"] != "done":
             run.problem(f"job {name}: {a['status']}: {'; '.join(n for n in a['notes'] if n)[:400]}")
     for t in tasks:
-        if t["name"] not in agg:
+        if t["name"] not in agg and not abandoned:
             run.problem(f"job {t['name']} produced no result")
     # ---- native replays: (1) violations, (2) per-path models (translator self-check + reachability witness)
     per_root = {}
